@@ -1,61 +1,27 @@
-(** C15 (thorough tier only: about 5 minutes of interval arithmetic) -- the hypothesis
-    [admissible] of the single-potential theorems is satisfiable: it holds for the coefficient
-    values of the current source at a liquid state (cowat: theta = 0.6, beta = 0.05, i.e.
-    115.23 degC, 1.106 MPa) and at a steam state (supst: theta = 0.9, beta = 0.05, i.e.
-    309.42 degC, 1.106 MPa).  Every divisor, every argument of sqrt and of **, every atom is
-    evaluated by interval arithmetic on the real-number reading of the traced DAG. *)
+(** C15 (thorough tier only: one interval enclosure per node of the two DAGs, AdmCW.v and AdmST.v
+    compiled in parallel, a few minutes) -- the hypothesis [admissible] of the single-potential theorems is
+    satisfiable: it holds for the coefficient values of the current source at a liquid state
+    (cowat: theta = 0.6, beta = 0.05, i.e. 115.23 degC, 1.106 MPa) and at a steam state (supst:
+    theta = 0.9, beta = 0.05, i.e. 309.42 degC, 1.106 MPa). *)
 Set Warnings "-ambiguous-paths,-notation-overridden".
 From Coq Require Import ZArith QArith Qreals Reals List Bool Lia Lra.
 From Coquelicot Require Import Coquelicot.
-From Interval Require Import Tactic.
 From P Require Import Expr Laurent Expand Jet PolyJet Potential Potential67.
+From P Require AdmCW AdmST.
 From Gen Require Import GenThermo GenTraced.
 Import ListNotations.
 Close Scope Q_scope.
 Open Scope R_scope.
 
-Ltac nz := first [ apply Rgt_not_eq; interval | apply Rlt_not_eq; interval ].
-Ltac numerals := unfold Q2R; cbn [Qnum Qden].
-
-Ltac expose_side nodes coefs :=
-  lazy [side_ok node_ok jops_node eval_node get nth CW.ns ST.ns fixpow map nodes jv jd fst snd
-        jadd jsub jmul jdiv jneg jsqrt jexp jpow jconst vars dvar_x dvar_y coefQ coefs cowat_a_Q cowat_sa_Q
-        supst_b_Q supst_sb_Q app Tc1_Q tc_k_Q Pc1_Q];
-  numerals.
-
-(* the valuation of atom i, in stages: which node / definition it is, the definition's polynomial
-   (vm_compute on the closed polynomial), then the node values as real expressions *)
-Ltac rho_index nodes :=
-  lazy [rho rho_base CW.tb CW.tvb CW.vb CW.cb ST.tb ST.tvb ST.vb ST.cb cowat_off_ncuts supst_off_ncuts
-        Nat.ltb Nat.leb Nat.add Nat.sub Nat.eqb andb nth lookup find tnodes cnodes CW.ns ST.ns fixpow map nodes length fst snd
-        CW.st0 ST.st0 CW.aA CW.aBq CW.aDd ST.aS1 ST.aS2 ST.aS3].
-Ltac rho_poly :=
-  repeat match goal with
-  | |- context [dpoly ?r (pden ?n ?e)] =>
-      let p := eval vm_compute in (pden n e) in
-      change (pden n e) with p;
-      lazy [dpoly dmono powerRZ pow fst snd Nat.add Pos.to_nat Pos.iter_op]
-  end.
-Ltac rho_nodes nodes coefs :=
-  lazy [envR evalR eval_nodes eval_node get nth CW.ns ST.ns fixpow map nodes vars coefQ coefs
-        cowat_a_Q cowat_sa_Q supst_b_Q supst_sb_Q app Tc1_Q tc_k_Q Pc1_Q];
-  numerals.
-Ltac rho_nz nodes coefs := rho_index nodes; rho_poly; rho_index nodes; rho_nodes nodes coefs; first [lra | nz].
-
 Example cowat_admissible_inhabited : CW.admissible (coefQ cowat_off_coefs_Q) (6 / 10) (5 / 100).
-Proof.
-  unfold CW.admissible, admissible. split; [|split].
-  - expose_side cowat_off_nodes cowat_off_coefs_Q. repeat split; try exact I; first [nz | interval].
-  - expose_side cowat_off_nodes cowat_off_coefs_Q. repeat split; try exact I; first [nz | interval].
-  - intros i Hi. unfold CW.cb, CW.vb, cowat_off_ncuts in Hi. cbn [Nat.add] in Hi.
-    do 19 (destruct i as [|i]; [rho_nz cowat_off_nodes cowat_off_coefs_Q|]). lia.
-Qed.
+Proof. unfold CW.admissible, admissible. split; [exact AdmCW.side_x|split; [exact AdmCW.side_y|exact AdmCW.atoms]]. Qed.
 
 Example supst_admissible_inhabited : ST.admissible (coefQ supst_off_coefs_Q) (9 / 10) (5 / 100).
-Proof.
-  unfold ST.admissible, admissible. split; [|split].
-  - expose_side supst_off_nodes supst_off_coefs_Q. repeat split; try exact I; first [nz | interval].
-  - expose_side supst_off_nodes supst_off_coefs_Q. repeat split; try exact I; first [nz | interval].
-  - intros i Hi. unfold ST.cb, ST.vb, supst_off_ncuts in Hi. cbn [Nat.add] in Hi.
-    do 19 (destruct i as [|i]; [rho_nz supst_off_nodes supst_off_coefs_Q|]). lia.
-Qed.
+Proof. unfold ST.admissible, admissible. split; [exact AdmST.side_x|split; [exact AdmST.side_y|exact AdmST.atoms]]. Qed.
+
+(** hence the Maxwell relation holds there for the source's own coefficients *)
+Example cowat_single_potential_at_state :
+  exists dchi, is_derive (fun x => CW.chi (coefQ cowat_off_coefs_Q) x (5 / 100)) (6 / 10) dchi /\
+               is_derive (fun y => CW.eps (coefQ cowat_off_coefs_Q) (6 / 10) y) (5 / 100)
+                         (CW.chi (coefQ cowat_off_coefs_Q) (6 / 10) (5 / 100) - 6 / 10 * dchi).
+Proof. apply CW.maxwell. exact cowat_admissible_inhabited. Qed.
